@@ -379,6 +379,14 @@ pub fn run_shutdown(focus: &'static str, seed: u64, index: u64) -> CaseOut {
         });
     }
     let mut shut_crew: rt::Crew<(u64, u64, Vec<String>)> = rt::Crew::new();
+    let from_closure = if index % 4 == 1 { 1 + (index / 4) % 2 } else { 0 };
+    if from_closure != 0 {
+        // keys 1 and 2 are there, so that the mapping function really runs
+        let mut setup = Client::new(90);
+        for key in [1u64, 2] { let value = setup.token(key); setup.write(&sut.cache, WriteOp::PutW { key, value, weight: 5 }); }
+        setup.settle_all(&marks);
+        counts.inc("shutdowns_called_from_inside_a_mapping_function");
+    }
     for s in 0..shutters {
         let cache = sut.cache.clone();
         let (shutdown_returned, go) = (shutdown_returned.clone(), go.clone());
@@ -387,7 +395,13 @@ pub fn run_shutdown(focus: &'static str, seed: u64, index: u64) -> CaseOut {
             while !go.load(Ordering::SeqCst) { thread::yield_now(); }
             thread::sleep(Duration::from_micros(delay_us + s as u64 * 50));
             let call = rt::stamp();
-            cache.shutdown();
+            // every fourth case the first caller shuts the cache down from inside a mapping function that the cache itself is running
+            // (map_get / the mapping iterator): no reference guard is held by the caller, so shutdown() must return there too
+            match (s, from_closure) {
+                (0, 1) => { if cache.map_get(&1, |v| { cache.shutdown(); v }).is_none() { cache.shutdown(); } }
+                (0, 2) => { if cache.multi_get_map_iterator(vec![&1, &2], |v| { cache.shutdown(); v }).next().flatten().is_none() { cache.shutdown(); } }
+                _ => cache.shutdown(),
+            }
             let ret = rt::stamp();
             let _ = shutdown_returned.compare_exchange(0, ret, Ordering::SeqCst, Ordering::SeqCst);
             // every API after shutdown() returned on this thread
